@@ -175,6 +175,14 @@ def canonicalise(tree):
         tmp = E ; if not tmp: ...   ->  if not E: ...
     The name must not occur anywhere else in the function, and not under a lambda / comprehension body of the consumer.  Rules therefore see
     the same program whether or not the author named an intermediate value."""
+    # docstrings are not code: no rule may be satisfied (or violated) by what a docstring says
+    for holder in [n for n in ast.walk(tree) if isinstance(n, (ast.Module, ast.ClassDef, ast.FunctionDef, ast.AsyncFunctionDef))]:
+        b = holder.body
+        if b and isinstance(b[0], ast.Expr) and isinstance(b[0].value, ast.Constant) and isinstance(b[0].value.value, str):
+            if len(b) == 1:
+                b[0] = ast.copy_location(ast.Pass(), b[0])
+            else:
+                del b[0]
     for fn in [n for n in ast.walk(tree) if isinstance(n, (ast.FunctionDef, ast.AsyncFunctionDef))]:
         changed = True
         while changed:
